@@ -211,7 +211,7 @@ func (v *VC) ev(e SExpr, env *SpecEnv) TV {
 			}
 			dk, _, ks, _ := v.mapKeys(mt)
 			h := v.heapGet(env.heap, dk, fmt.Sprintf("RAW:(Array Ptr (Array %s Bool))", ks))
-			return TV{T: fmt.Sprintf("(select (select %s %s) %s)", h, m.T, k.T), Typ: tBool}
+			return TV{T: fmt.Sprintf("(and (not (= %s nilp)) (select (select %s %s) %s))", m.T, h, m.T, k.T), Typ: tBool}
 		}
 		l := v.ev(x.L, env)
 		r := v.ev(x.R, env)
